@@ -75,7 +75,8 @@ def compare(Ls, Lt, where, prev_sizes):
 
 
 def job(j):
-    levels, k, limit, seed = j
+    levels, k, limit, seed = j[:4]
+    limit2 = j[4] if len(j) > 4 else limit
     cfg_s = Config(levels=levels, ndisks=2, splits={l: k for l in range(levels)}, parity_limit=limit)
     cfg_t = Config(levels=levels, ndisks=2)
     v = []
@@ -84,7 +85,10 @@ def job(j):
     with labmod.Lab(cfg_s, seed=seed) as Ls, labmod.Lab(cfg_t, seed=seed) as Lt:
         prev = None
         for si, step in enumerate(HISTORY):
-            where = "limit=%d k=%d levels=%d step %d %s" % (limit, k, levels, si, step if isinstance(step, str) else "files+sync")
+            if si == 2 and limit2 != limit:
+                # more room appears on the parity disks: from now on a larger per-file limit applies
+                Ls.cfg = Ls.cfg.clone(parity_limit=limit2)
+            where = "limit=%d->%d k=%d levels=%d step %d %s" % (limit, limit2, k, levels, si, step if isinstance(step, str) else "files+sync")
             if isinstance(step, list):
                 for op in step:
                     X.apply_op(Ls, op)
@@ -153,16 +157,18 @@ def run(ctx):
                     "for EVERY --test-parity-limit from 1024 to 15360 in 512-byte steps; compared after every command. "
                     "non-trivial = at least two steps completed with >=2 non-empty splits or a refusal" % (ks, levels))
     jobs = [(l, k, lim, ctx.seed) for l in levels for k in ks for lim in limits]
+    # the limit grows after the second step (space freed on a parity disk): x4 and +1536
+    jobs += [(l, k, lim, ctx.seed, lim2) for l in levels for k in ks for lim in limits[:13] for lim2 in (lim * 4, lim + 1536)]
     evals = 0
     done = 0
     for j, r in par.pmap(job, jobs, deadline=ctx.deadline):
         done += 1
         evals += r["steps"]
-        ctx.nontrivial(j[:3])
+        ctx.nontrivial(j[:3] + j[4:])
         ctx.outcome((r["steps"], r["outcome"][-1] if r["outcome"] else None))
         for v in r["viols"]:
             ctx.violation("C17/%s" % v["kind"], "%s: %s" % (v["kind"], v["where"]),
-                          dict(levels=j[0], k=j[1], limit=j[2], violation=v))
+                          dict(levels=j[0], k=j[1], limit=j[2], limit2=j[4] if len(j) > 4 else j[2], violation=v))
         if done in (3, 40):
             ctx.sample(dict(levels=j[0], splits=j[1], parity_limit=j[2], steps_completed=r["steps"], exits=r["outcome"]))
     if done < len(jobs):
@@ -176,7 +182,7 @@ def run(ctx):
 
 
 def replay(r):
-    out = job((r["levels"], r["k"], r["limit"], 0))
+    out = job((r["levels"], r["k"], r["limit"], 0, r.get("limit2", r["limit"])))
     for v in out["viols"]:
         print("  ", v)
     return not out["viols"]
